@@ -224,6 +224,24 @@ func c09Run(c *core.Ctx) *core.Result {
 		}
 	}
 
+	// 3c. an FS rooted at the file-system root itself, walked at the tree
+	// (the only root whose cleaned form ends in a separator)
+	if c.R.P(1, 4) {
+		if rfs, err := fsutil.NewFS("/"); err == nil {
+			rel := strings.TrimPrefix(filepath.ToSlash(src), "/")
+			if top, err := tree.LstatEntry(src, tree.SnapOpt{NoData: true}); err == nil {
+				top.Path = rel
+				got3c, err := walkStats(rfs, rel)
+				if err != nil {
+					r.Violate("walk-error", "NewFS(\"/\").Walk(%q) failed: %v", rel, err)
+				} else {
+					c09Compare(r, "NewFS(\"/\").Walk(tree)", prefixed(snap.Entries, rel, *top), got3c, "")
+					r.Count("walks_from_the_filesystem_root", 1)
+				}
+			}
+		}
+	}
+
 	// 3b. the single-entry stat constructor
 	for k := 0; k < 3 && len(snap.Entries) > 0; k++ {
 		e := core.Pick(c.R, snap.Entries)
